@@ -126,3 +126,4 @@ LEVEL_TEXT = ('Exploration, exhaustive at run time within each instantiated shap
               'write histories; every assignment is followed by a bit-for-bit comparison of the entire parent and of the memory around it.')
 LEVEL_NOTE = 'trusted: the range model (shared with C04) and the 5-line operator model'
 DESIGN_REF = 'DESIGN.md section 8 C05'
+THOROUGH_NATIVE = True      # this module's own thorough product (covering sample of 320 pairs) was soaked to silence
